@@ -1,3 +1,4 @@
+CONSTANT Deviations = {}
 SPECIFICATION Spec
 POSTCONDITION AllRead
 CHECK_DEADLOCK FALSE
